@@ -58,6 +58,15 @@ def g_value(ps, fs, b, is_log):
     k = ps["kind"]
     shift = 0.0 if is_log else 2.0
     kind = fs["kind"]
+    if kind == "view":
+        # the callable returns its argument or a view of it (identity, .to(same dtype), slice,
+        # squeeze); in log mode that tensor is log f, so the linear-space value is exp of it
+        lin = (lambda x: math.exp(x)) if is_log else (lambda x: float(x))
+        if k == "bern_elem":
+            return [lin(v) for v in b]
+        if k == "onehot":
+            return lin(1.0 if b == 0 else 0.0)
+        return lin(b[0])
     if k in ("bern_joint", "srswor"):
         if kind == "table":
             return fs["vals"][O.bits_index(b)]
@@ -87,6 +96,17 @@ def torch_fn(ps, fs, is_log, dtype, theta=None):
     n = nbits(ps)
     shift = 0.0 if is_log else 2.0
     kind = fs["kind"]
+    if kind == "view":
+        how = fs["how"]
+        if how == "identity":
+            return lambda b: b
+        if how == "to":
+            return lambda b: b.to(b.dtype)  # a no-op conversion hands back the very same tensor
+        if how == "slice":
+            return lambda b: b[..., 0]
+        if how == "squeeze":
+            return lambda b: b.squeeze(-1)
+        raise ValueError(how)
     if k in ("bern_joint", "srswor"):
         if kind == "table":
             tab = torch.tensor([float("nan") if v is None else v for v in fs["vals"]], dtype=dtype)
@@ -149,12 +169,16 @@ def support_tensor(ps, support, dtype):
     return torch.tensor(support)
 
 
-def build_dist(ps, dtype, theta_key="theta"):
-    """(distribution, leaf parameter tensor or None)"""
+def build_dist(ps, dtype, theta_key="theta", theta=None):
+    """(distribution, leaf parameter tensor or None).  ``theta``: reuse an existing parameter
+    tensor (two distribution objects over the same parameters); ps["validate"] == False turns
+    torch's argument/sample validation off."""
     k = ps["kind"]
+    va = None if ps.get("validate", True) else False
     if k == "srswor":
-        return D.SimpleRandomSamplingWithoutReplacement(ps["L"], ps["T"], ps["out"]), None
-    theta = torch.tensor(ps[theta_key], dtype=dtype, requires_grad=True)
+        return D.SimpleRandomSamplingWithoutReplacement(ps["L"], ps["T"], ps["out"], validate_args=va), None
+    if theta is None:
+        theta = torch.tensor(ps[theta_key], dtype=dtype, requires_grad=True)
     if k in ("bern_joint", "bern_elem"):
         const = ps.get("const") or {}
         if const:
@@ -162,18 +186,18 @@ def build_dist(ps, dtype, theta_key="theta"):
             m0 = torch.tensor([float(const.get(str(i), const.get(i, -1))) == 0.0 for i in range(len(ps[theta_key]))])
             m1 = torch.tensor([float(const.get(str(i), const.get(i, -1))) == 1.0 for i in range(len(ps[theta_key]))])
             probs = probs.masked_fill(m0, 0.0).masked_fill(m1, 1.0)
-            base = torch.distributions.Bernoulli(probs=probs)
+            base = torch.distributions.Bernoulli(probs=probs, validate_args=va)
         elif ps["par"] == "logits":
-            base = torch.distributions.Bernoulli(logits=theta)
+            base = torch.distributions.Bernoulli(logits=theta, validate_args=va)
         else:
-            base = torch.distributions.Bernoulli(probs=theta)
+            base = torch.distributions.Bernoulli(probs=theta, validate_args=va)
         if k == "bern_joint":
-            return torch.distributions.Independent(base, 1), theta
+            return torch.distributions.Independent(base, 1, validate_args=va), theta
         return base, theta
     cls = torch.distributions.OneHotCategorical if k == "onehot" else torch.distributions.Categorical
     if ps["par"] == "logits":
-        return cls(logits=theta), theta
-    return cls(probs=theta), theta
+        return cls(logits=theta, validate_args=va), theta
+    return cls(probs=theta, validate_args=va), theta
 
 
 class ShiftedDensity:
@@ -215,6 +239,42 @@ def cv_mean_tensor(ps, dist, cs, support, mass, is_log, dtype):
 
 
 # ---------------------------------------------------------------------------------------
+class ScriptedRandom(ScriptedRandom):  # noqa: F811 - same seam, fresh result tensors
+    """mc.seams.ScriptedRandom builds its answers with ``.view(shape)``; inside
+    ``Distribution.sample`` (no_grad) that makes the sample a *view created in no_grad mode*, on
+    which autograd forbids in-place writes - the real torch.bernoulli / torch.multinomial return
+    fresh tensors, which an estimator CAN silently overwrite.  Cloning restores that behaviour."""
+
+    def bernoulli(self, *a, **kw):
+        return super().bernoulli(*a, **kw).clone()
+
+    def multinomial(self, *a, **kw):
+        return super().multinomial(*a, **kw).clone()
+
+
+class Guard:
+    """Wraps a user callback (func / cv): remembers a copy of every tensor handed in and every
+    tensor produced, so that after the estimator has returned one can tell whether the estimator
+    wrote into tensors that belong to the caller."""
+
+    def __init__(self, name, fn):
+        self.name, self.fn, self.log = name, fn, []
+
+    def __call__(self, b):
+        b0 = b.detach().clone()
+        out = self.fn(b)
+        self.log.append((b, b0, out, out.detach().clone()))
+        return out
+
+    def modified(self):
+        for b, b0, out, out0 in self.log:
+            if b.shape != b0.shape or not torch.equal(b.detach(), b0):
+                return self.name + "-input", b0.tolist(), b.detach().tolist()
+            if out.shape != out0.shape or not torch.equal(out.detach(), out0):
+                return self.name + "-output", out0.tolist(), out.detach().tolist()
+        return None
+
+
 def _record_tree(ctx, cid, ch):
     choices = ch.choices
     start = max(0, len(ch.prefix) - 1) if ch.prefix else 0
@@ -226,7 +286,13 @@ def _record_tree(ctx, cid, ch):
 
 
 def cfg_sig(cfg, **kw):
-    s = {"api": cfg["est"], "proposal": cfg["prop"]["kind"], "is_log": cfg.get("is_log", False)}
+    s = {"api": cfg.get("est", cfg["fam"]), "proposal": cfg["prop"]["kind"], "is_log": cfg.get("is_log", False)}
+    if cfg.get("share"):
+        s["share"] = cfg["share"]
+    if cfg["f"].get("kind") == "view":
+        s["func_returns_view"] = cfg["f"]["how"]
+    if cfg["prop"].get("validate", True) is False:
+        s["validate_args"] = False
     s.update(kw)
     return s
 
@@ -243,7 +309,10 @@ def run_tree(ctx, cfg):
     nv = len(ps["theta"]) if elem else 1
     wts = [float(i + 1) for i in range(nv)]
     # ---- exact reference ------------------------------------------------------------------
-    if est == "is":
+    share = cfg.get("share")  # "object": density is proposal; "param": two objects, one parameter tensor
+    if est == "is" and share:
+        tmass, tdlog = mass, dlog
+    elif est == "is":
         dspec = cfg["dens"]
         if dspec["kind"] == "cbern":
             osp = {"kind": "cbern", "T": ps["T"], "L": ps["L"], "out": ps["out"], "theta": dspec["theta"],
@@ -259,7 +328,7 @@ def run_tree(ctx, cfg):
         tmass, tdlog = mass, dlog
     gv = [g_value(ps, fs, b, is_log) for b in support]
     dep = fs.get("dep") or 0.0
-    tgt_theta = cfg["dens"]["theta"] if est == "is" else ps.get("theta", [])
+    tgt_theta = cfg["dens"]["theta"] if est == "is" and not share else ps.get("theta", [])
     factor = 1.0 + dep * sum(tgt_theta)
     gbase = gv
     gv = [[x * factor for x in g] if elem else g * factor for g in gv]
@@ -285,18 +354,23 @@ def run_tree(ctx, cfg):
         seen = []
         tgt = [theta]
 
-        def func(b):
-            seen.append(b)
+        def func_(b):
+            seen.append(b.detach().clone())
             return torch_fn(ps, fs, is_log, dtype, tgt[0])(b)
 
+        func = Guard("func", func_)
+        cvg = Guard("cv", cvfn) if cs else None
         params = [theta] if theta is not None else []
         with ScriptedRandom(ch):
             if est == "direct":
                 if cs:
                     mu = cv_mean_tensor(ps, dist, cs, support, mass, is_log, dtype)
-                    e = E.DirectEstimator(dist, func, N, cvfn, mu, is_log)
+                    e = E.DirectEstimator(dist, func, N, cvg, mu, is_log)
                 else:
                     e = E.DirectEstimator(dist, func, N, is_log=is_log)
+            elif est == "is" and share:
+                dens = dist if share == "object" else build_dist(ps, dtype, theta=theta)[0]
+                e = E.ImportanceSamplingEstimator(dist, func, N, dens, False, is_log)
             elif est == "is":
                 dspec = cfg["dens"]
                 if dspec["kind"] == "cbern":
@@ -323,8 +397,9 @@ def run_tree(ctx, cfg):
         if est != "enum":
             for b in seen:
                 insup = insup and bool(dist.support.check(b).all())
+        mod = func.modified() or (cvg.modified() if cvg else None)
         return (val.detach().double().reshape(-1).tolist(), [g.double().reshape(-1).tolist() for g in grads],
-                insup, tuple(v.shape), [b.tolist() for b in seen][:1])
+                insup, tuple(v.shape), [b.tolist() for b in seen][:1], mod)
 
     Eval = [0.0] * nv
     Egrad = None
@@ -337,7 +412,11 @@ def run_tree(ctx, cfg):
                           dict(case, choices=ch.choices), {"error": repr(res)[-400:]})
             ctx.case(1)
             return
-        val, grads, insup, shape, first = res
+        val, grads, insup, shape, first, mod = res
+        if mod and not stats.get("mod"):
+            stats["mod"] = True
+            ctx.violation(cfg_sig(cfg, symptom="callback-tensor-modified", which=mod[0], cv=bool(cs)),
+                          dict(case, choices=ch.choices), {"before": mod[1], "after": mod[2]})
         if len(val) != nv:
             ctx.violation(cfg_sig(cfg, symptom="wrong-shape"), dict(case, choices=ch.choices),
                           {"shape": list(shape), "expected_numel": nv})
@@ -372,7 +451,10 @@ def run_tree(ctx, cfg):
     if Egrad is None:
         Egrad = []
     blocks = []
-    if est == "is":
+    if est == "is" and share:
+        if ps["kind"] != "srswor":
+            blocks.append(("density", exp_grad))  # one parameter tensor behind target and proposal
+    elif est == "is":
         blocks.append(("density", exp_grad))
         if ps["kind"] != "srswor":
             blocks.append(("proposal", [0.0] * len(ps["theta"])))
@@ -387,6 +469,109 @@ def run_tree(ctx, cfg):
     if stats["paths"] and len(ctx.samples) < 2:
         ctx.sample({"config": cfg, "paths": stats["paths"], "E_value": Eval, "exact_value": exp_val,
                     "E_grad": Egrad, "exact_grad": exp_grad})
+
+
+# ---------------------------------------------------------------------------------------
+def run_seq(ctx, cfg):
+    """Several estimator calls in a row over ONE distribution object (and one control-variate mean
+    tensor): "direct", "is" (density is proposal), "again" (the previous estimator object called
+    once more).  The draw tree covers the draws of all calls; every call's E[value] and E[grad]
+    must be exact (gradients are taken after the last call), and a result kept from an earlier
+    call must be unchanged after the later calls."""
+    ps, fs, cs, order = cfg["prop"], cfg["f"], cfg.get("cv"), cfg["order"]
+    N, is_log, dtype = cfg["N"], cfg["is_log"], DT[cfg.get("dtype", "float32")]
+    cid = h64(cfg)
+    case = {"kind": "seq", "cfg": cfg}
+    support, mass, dlog = O.table(oracle_spec(ps))
+    elem = ps["kind"] == "bern_elem"
+    nv = len(ps["theta"]) if elem else 1
+    wts = [float(i + 1) for i in range(nv)]
+    gv = [g_value(ps, fs, b, is_log) for b in support]
+    if elem:
+        exp_val = [O.expectation(mass, [g[i] for g in gv]) for i in range(nv)]
+        scal = [sum(w * x for w, x in zip(wts, g)) for g in gv]
+    else:
+        exp_val, scal = [O.expectation(mass, gv)], gv
+    exp_grad = O.grad_expectation(mass, dlog, scal)
+    wt = torch.tensor(wts, dtype=torch.float64)
+    cvfn = torch_fn(ps, cs, is_log, dtype) if cs else None
+    K = len(order)
+
+    def run(ch):
+        dist, theta = build_dist(ps, dtype)
+        func = Guard("func", torch_fn(ps, fs, is_log, dtype, theta))
+        cvg = Guard("cv", cvfn) if cs else None
+        mu = cv_mean_tensor(ps, dist, cs, support, mass, is_log, dtype) if cs else None
+        vs, kept, e = [], [], None
+        with ScriptedRandom(ch):
+            for name in order:
+                if name == "direct":
+                    e = E.DirectEstimator(dist, func, N, cvg, mu, is_log) if cs else \
+                        E.DirectEstimator(dist, func, N, is_log=is_log)
+                elif name == "is":
+                    e = E.ImportanceSamplingEstimator(dist, func, N, dist, False, is_log)
+                v = e()
+                vs.append(v)
+                kept.append(v.detach().clone())
+        changed = [i for i in range(K) if vs[i].shape != kept[i].shape or not torch.equal(vs[i].detach(), kept[i])]
+        vals, grads = [], []
+        for v in vs:
+            val = v.exp() if is_log else v
+            s = (val.double().reshape(-1) * wt).sum()
+            if theta is not None and s.requires_grad:
+                g, = torch.autograd.grad(s, [theta], retain_graph=True, allow_unused=True)
+                g = torch.zeros_like(theta) if g is None else g
+                grads.append(g.double().reshape(-1).tolist())
+            else:
+                grads.append([])
+            vals.append(val.detach().double().reshape(-1).tolist())
+        mod = func.modified() or (cvg.modified() if cvg else None)
+        return vals, grads, changed, mod
+
+    Eval = [[0.0] * nv for _ in range(K)]
+    Egrad = [None] * K
+    paths, flagged = 0, set()
+    for ch, res in explore(run):
+        paths += 1
+        _record_tree(ctx, cid, ch)
+        if isinstance(res, Exception):
+            ctx.violation(cfg_sig(cfg, symptom="raises", type=type(res).__name__, order=order),
+                          dict(case, choices=ch.choices), {"error": repr(res)[-400:]})
+            ctx.case(1)
+            return
+        vals, grads, changed, mod = res
+        if changed and "changed" not in flagged:
+            flagged.add("changed")
+            ctx.violation(cfg_sig(cfg, symptom="earlier-result-changed-by-later-call", order=order),
+                          dict(case, choices=ch.choices), {"calls": changed})
+        if mod and "mod" not in flagged:
+            flagged.add("mod")
+            ctx.violation(cfg_sig(cfg, symptom="callback-tensor-modified", which=mod[0], cv=bool(cs), order=order),
+                          dict(case, choices=ch.choices), {"before": mod[1], "after": mod[2]})
+        p = ch.prob
+        for k in range(K):
+            if len(vals[k]) != nv:
+                ctx.violation(cfg_sig(cfg, symptom="wrong-shape", order=order), dict(case, choices=ch.choices), None)
+                return
+            for i in range(nv):
+                Eval[k][i] += p * vals[k][i]
+            if Egrad[k] is None:
+                Egrad[k] = [0.0] * len(grads[k])
+            for j, x in enumerate(grads[k]):
+                Egrad[k][j] += p * x
+    ctx.case(paths)
+    ctx.key(("seq", cid), nontrivial=len(support) > 1)
+    ctx.traces += 1
+    ctx.count("trees_seq")
+    for k in range(K):
+        if any(not close(a, b) for a, b in zip(Eval[k], exp_val)):
+            ctx.violation(cfg_sig(cfg, symptom="biased-value", order=order, call=k, cv=bool(cs), N=N), case,
+                          {"expected": exp_val, "observed": Eval[k]})
+        if ps["kind"] != "srswor" and (len(Egrad[k] or []) != len(exp_grad) or
+                                        any(not close(a, b) for a, b in zip(Egrad[k], exp_grad))):
+            ctx.violation(cfg_sig(cfg, symptom="biased-gradient", wrt="proposal", order=order, call=k, cv=bool(cs), N=N),
+                          case, {"expected": exp_grad, "observed": Egrad[k]})
+    ctx.outcome(("seq", order, [round(x, 4) for x in exp_val]))
 
 
 # ---------------------------------------------------------------------------------------
